@@ -248,6 +248,23 @@ Definition known_splice (cad hb hb' : bytes) (ad' : list bytes) : bool :=
 Definition oracle_sign (h : header) (body : bytes) (impl_ok : bool) (impl_hb : bytes) : bool :=
   if impl_ok then out_eqb (parse_hb impl_hb) (Some (h, body)) else true.
 
+(** messages not produced by Sign: whatever is accepted has the right
+    associated-data length, an algorithm that fits the key, a signature that the
+    crypto accepts over header-and-body || associated data, and the returned
+    header and body are the ones in the verified bytes *)
+Definition oracle_raw (hb' sg' : bytes) (ad' : list bytes) (k' : option key) (tbl : tbl_t)
+           (impl : option (header * bytes)) : bool :=
+  match impl with
+  | None => true
+  | Some (h', b') =>
+    out_eqb (parse_hb hb') (Some (h', b')) && (ad_len ad' =? h_adlen h')%Z &&
+    match k' with
+    | Some k => check_algo (h_algo h') (fst k) &&
+                sig_valid_c tbl k (sig_input hash_c (h_algo h') hb' ad') sg'
+    | None => false
+    end
+  end.
+
 Definition model_sign (k : option key) h body ad : bool * bytes :=
   match sign_c k h body ad with Ok m => (true, m_hb m) | Err _ => (false, []) end.
 
@@ -261,7 +278,8 @@ Definition check (c : case) : N :=
     Check.verdict (out_eqb (to_opt (verify_c tbl hb' sg' k' ad')) impl)
                   (oracle_verify h body cad kid hb sg hb' sg' ad' k' impl)
   | CRaw hb' sg' ad' k' tbl impl =>
-    Check.verdict (out_eqb (to_opt (verify_c tbl hb' sg' k' ad')) impl) true
+    Check.verdict (out_eqb (to_opt (verify_c tbl hb' sg' k' ad')) impl)
+                  (oracle_raw hb' sg' ad' k' tbl impl)
   end.
 
 Definition diag (c : case) : (bool * bytes) * res (header * bytes) :=
